@@ -11,6 +11,8 @@ def items(tier):
     for p, strat, tags in corpus.entries(tier):
         for L in ([maxL] if tier == "quick" else range(0, maxL + 1)):
             out.append(mk("C11", p, "basic", L, "", strategy=strat))
+        for pre, post in corpus.windows(p):
+            out.append(mk("C11", p, "basic", maxL, "", strategy=strat, pre=pre, post=post))
         if tier != "quick" or (len(out) % 6 == 0):
             out.append(mk("C11", p, "all", 2 if tier == "quick" else 3, "", strategy=strat))
     return out
